@@ -64,7 +64,7 @@ int main(int argc, char **argv) {
     std::vector<std::string> coars = {"aggregation", "smoothed_aggregation", "smoothed_aggr_emin", "ruge_stuben"};
     std::vector<std::string> relax = {"spai0", "damped_jacobi", "gauss_seidel", "ilu0", "iluk", "ilut", "ilup", "chebyshev", "spai1"};
     std::vector<std::string> solvers = {"cg", "bicgstab", "gmres", "bicgstabl"};
-    if (T) for (const char *s : {"idrs", "lgmres", "fgmres", "richardson"}) solvers.push_back(s);
+    if (T) for (const char *s : {"idrs", "lgmres", "fgmres", "richardson"}) solvers.push_back(s);      // here all 8: the clause is "still reaches 1e-8", judged against the all-double run
     if (vf::section("mp")) {
         std::vector<sg::System<double>> sys;
         for (auto &s : sg::grid_systems(1)) if (s.spd_mmatrix && s.A.n <= 150) sys.push_back(s);
@@ -110,8 +110,19 @@ int main(int argc, char **argv) {
                 if (fin) {
                     ld diff = fabsl((ld)om.resid - trm);
                     if (om.resid > 1 || trm > 1) vf::count("mixed.diverged_not_judged_for_truthfulness");
-                    else if (!(diff <= bdm)) vf::fail("mp.truthful." + so, key, vf::KS() << "reported=" << om.resid << " true=" << (double)trm << " |diff|=" << (double)diff << " > bound=" << (double)bdm << " iters=" << om.iters << in);
-                    else if (om.resid < 1e-8 && !(trm <= 1e-8L * (1 + 1e-6L) + bdm)) vf::fail("mp.tol." + so, key, vf::KS() << "reported=" << om.resid << " < tol but true=" << (double)trm << in);
+                    else if (om.resid < 1e-8 && !(trm <= 1e-8L * (1 + 1e-6L) + bdm)) vf::fail("mp.tol." + so, key, vf::KS() << "reported=" << om.resid << " < tol but true=" << (double)trm << " iters=" << om.iters << in);
+                    else if (!(diff <= bdm) && !(om.resid < 1e-8 && trm < 1e-8L)) vf::fail("mp.truthful." + so, key, vf::KS() << "reported=" << om.resid << " true=" << (double)trm << " |diff|=" << (double)diff << " > bound=" << (double)bdm << " iters=" << om.iters << in);
+                    else if (!(diff <= bdm)) vf::count("margin.gap_above_bound_but_both_below_tol");
+                    // early-stopped probe: two-sided bound as derived
+                    if (om.iters > 2) {
+                        ptree pe = p; pe.put("solver.maxiter", 2);
+                        Out oe = run<SM>(S.A, pe, f, false);
+                        if (!oe.threw && c13::all_finite(oe.x) && std::isfinite(oe.resid)) {
+                            ld tre = c13::truth(S.A, f, oe.x), bde = c13::bound(oe.iters, S.A.n, sv, 0, sg::norm2_ld(oe.x), fn, oe.resid);
+                            vf::count(tre > 1e-6L ? "early.residual_above_1e-6" : "early.residual_below_1e-6");
+                            if (!(oe.resid > 1 || tre > 1) && !(fabsl((ld)oe.resid - tre) <= bde)) vf::fail("mp.truthful_early." + so, key, vf::KS() << "maxiter=2 reported=" << oe.resid << " true=" << (double)tre << " bound=" << (double)bde << in);
+                        }
+                    }
                 } else vf::count("mixed.nonfinite");
                 if (cm) { vf::count("mixed.converged"); long d = (long)om.iters - (long)od.iters; if (cd) vf::count(d <= 0 ? "iters.mixed_le_double" : d <= 2 ? "iters.mixed_minus_double_1_2" : d <= 10 ? "iters.mixed_minus_double_3_10" : "iters.mixed_minus_double_gt_10"); }
                 if (cd && !cm) vf::fail("mp.reaches_tol." + so, key, vf::KS() << "double preconditioner: " << od.iters << " its, reported " << od.resid << " (true " << (double)trd << "); float preconditioner: " << om.iters << " its, reported " << om.resid << " (true " << (double)trm << ")" << in);
